@@ -40,7 +40,7 @@ def main():
     args = parse_args("C05"); ck = Check("C05", args.tier); thorough = args.tier == "thorough"
     ir = common.build_ir(["cdiffraction"]); mod = Module(); mod.load(ir["cdiffraction"])
     import ImageD11.unitcell as UC
-    ck.encoded("src/cdiffraction.c:quickorient (clang IR)", "ImageD11/unitcell.py:BTmat, unit, norm2 (pysym)", "ImageD11/unitcell.py:orient_BL (independent reference, thorough)")
+    ck.encoded("src/cdiffraction.c:quickorient (clang IR)", "ImageD11/unitcell.py:BTmat, unit, norm2 (pysym)", "ImageD11/unitcell.py:orient_BL (independent reference, thorough)", "ImageD11/unitcell.py:unitcell.getanglehkls (cache wiring from an arbitrary cached state)")
     pairs = PAIRS if thorough else PAIRS[:5]
     ck.bound("hkl pairs %s (concrete, non-collinear, incl. same-ring pairs); B: every upper-triangular matrix with positive diagonal (= every cell); g1, g2: every pair of real vectors with the Gram matrix of (B.h1, B.h2) (= every crystal orientation)" % (pairs,),
              "the candidate-list sentence (several hkl pairs with the same angle: filter_pairs / ubi_equiv / getanglehkls) is NOT covered")
@@ -131,6 +131,36 @@ def main():
             def run(h1=h1, h2=h2, part=part):
                 r = mk_B(h1, h2)(); r["goals"] = r["goals"][part::2]; return r
             jobs.append(("BT-wiring hkl %s,%s /%d" % (h1, h2, part), run, dict(replay=mk_replay(h1, h2), timeout_ms=tmo, keyfn=lambda n, l: "orientation:" + l.split("[")[0][:40])))
+    def run_cache():
+        """getanglehkls from an ARBITRARY cached state: the table handed back for (ring1, ring2) is the cached one only for exactly that key,
+        otherwise it is computed from the hkls of ring1 and ring2 in this order and stored under that key (wiring: object identities)"""
+        goals = []
+        for r1 in range(3):
+            for r2 in range(3):
+                uc = object.__new__(UC.unitcell); uc.ringtol = 0.001; uc.B = np.eye(3); uc.gi = np.eye(3)
+                uc.ringds = [0.5, 0.7, 0.9]; H = {0.5: object(), 0.7: object(), 0.9: object()}; uc.ringhkls = H
+                sent = {(a, b): ("cached", a, b) for a in range(3) for b in range(3) if (a, b) != (r1, r2)}
+                uc.anglehkl_cache = dict(sent); uc.anglehkl_cache.update(ringtol=uc.ringtol, B=uc.B, BI=np.eye(3))
+                calls = []; FRESH = ("fresh",)
+                def cm(h1, h2, gi): calls.append(("cos", h1, h2, gi)); return "cangs"
+                def fp(h1, h2, c, B, BI): calls.append(("filter", h1, h2, c)); return FRESH
+                with pysym.patched((UC, "cosangles_many", cm), (UC, "filter_pairs", fp)):
+                    v1 = uc.getanglehkls(r1, r2); v2 = uc.getanglehkls(r1, r2); others = [uc.getanglehkls(a, b) is sent[(a, b)] for (a, b) in sent]
+                ok = v1 is FRESH and v2 is FRESH and len(calls) == 2 and calls[0][1] is H[uc.ringds[r1]] and calls[0][2] is H[uc.ringds[r2]] and calls[1][1] is H[uc.ringds[r1]] and calls[1][2] is H[uc.ringds[r2]] \
+                    and calls[1][3] == "cangs" and uc.anglehkl_cache.get((r1, r2)) is FRESH and all(others)
+                goals.append(("W getanglehkls(%d, %d): computed from (hkls of ring1, hkls of ring2), cached under exactly that key, other keys untouched" % (r1, r2), z3.BoolVal(bool(ok))))
+        return dict(goals=goals, inputs={})
+    def replay_cache(vals, label):
+        u = UC.unitcell([4.1, 4.1, 4.1, 90, 90, 90], "F"); u.makerings(1.2)
+        for r1 in range(min(3, len(u.ringds))):
+            for r2 in range(min(3, len(u.ringds))):
+                if r1 == r2: continue
+                u.getanglehkls(r2, r1); got = u.getanglehkls(r1, r2)
+                f = UC.unitcell([4.1, 4.1, 4.1, 90, 90, 90], "F"); f.makerings(1.2); want = f.getanglehkls(r1, r2)
+                if len(got[0]) != len(want[0]) or any(not np.array_equal(np.asarray(a), np.asarray(b)) for a, b in zip(got[0], want[0])):
+                    return True, "unitcell F 4.1: getanglehkls(%d,%d) after getanglehkls(%d,%d) returns hkl pairs %s..., a fresh object returns %s..." % (r1, r2, r2, r1, [np.asarray(x).tolist() for x in got[0][:1]], [np.asarray(x).tolist() for x in want[0][:1]])
+        return False, "cache keyed correctly on the real object"
+    jobs.append(("getanglehkls-cache", run_cache, dict(replay=replay_cache, timeout_ms=tmo, keyfn=lambda n, l: "unitcell.py:getanglehkls:cache-key")))
     harness.run_parallel(ck, jobs)
     # the end-to-end statements as stretch obligations (monolithic)
     if thorough:
